@@ -80,9 +80,9 @@ FamAbsence(AL) ==
            Task(2, 0, au, 1, FALSE, 0, <<1>>, <<>>, 1),
            Task(1, 0, FALSE, 1, FALSE, 0, <<1>>, <<>>, 2) >>,
         d, 1,
-        << PlainWorker(<<1, 1, 1>>, 1), Worker(1, <<2, 0, 1>>, <<>>, 3, FALSE, wab, 0) >>,
-        <<>>, <<>>, <<>>, Opt(al, aa, "TSLACK", 16))
-    : w1 \in {1, 3}, au \in BOOLEAN, aa \in BOOLEAN, al \in AL, wab \in {<<>>, <<1>>},
+        << PlainWorker(<<1, 1, s13>>, 1), Worker(1, <<2, 0, 1>>, <<>>, 3, FALSE, wab, 0) >>,
+        <<>>, <<>>, <<>>, Opt(al, aa, "TSLACK", 20))
+    : w1 \in {1, 3, 4}, s13 \in {0, 1}, au \in BOOLEAN, aa \in BOOLEAN, al \in AL, wab \in {<<>>, <<1>>},
       d \in {<<>>, <<<<1, 2, "FS">>>>, <<<<1, 2, "SS">>, <<2, 3, "FS">>>>, <<<<1, 3, "FF">>>>,
              <<<<2, 3, "SS">>>>, <<<<2, 1, "SF">>>>} }
 
